@@ -18,6 +18,7 @@ import z3
 
 from . import sym
 from .sym import Sym, Val, Unsupported, EngineError, PathLimit
+from .symlist import SymList, PathEnd, LoopSpec
 
 REPO_ROOT = os.environ.get('GASOL_REPO', '/repo')
 
@@ -106,7 +107,7 @@ def source_info(f):
 
 # --------------------------------------------------------------------------
 class Frame(object):
-    __slots__ = ('locals', 'gdict', 'gnames', 'nonlocals', 'parent', 'fname', 'qual')
+    __slots__ = ('locals', 'gdict', 'gnames', 'nonlocals', 'parent', 'fname', 'qual', 'fnode')
 
     def __init__(self, gdict, parent=None, fname='?', qual='?'):
         self.locals = {}
@@ -116,6 +117,7 @@ class Frame(object):
         self.parent = parent
         self.fname = fname
         self.qual = qual
+        self.fnode = parent.fnode if parent is not None else None
 
 
 class InterpFunction(object):
@@ -152,7 +154,7 @@ DROP_CALLS = {'print'}
 
 
 class Interp(object):
-    def __init__(self, path, stubs=None, max_depth=40, max_loop=300, drop=()):
+    def __init__(self, path, stubs=None, max_depth=40, max_loop=300, drop=(), loops=None):
         self.path = path
         self.stubs = stubs or {}
         self.depth = 0
@@ -163,6 +165,8 @@ class Interp(object):
         self.trace = []
         self.asm_obj = None
         self.cfg = None
+        self.loops = loops or {}
+        self._ordinals = {}
 
     # ------------------------------------------------------------------ calls
     def call(self, fn, args=(), kwargs=None, body=False):
@@ -232,6 +236,8 @@ class Interp(object):
             raise PathLimit("call depth > %d (recursion without contract?) in %s" % (self.max_depth, qual))
         try:
             fr = Frame(gdict, parent, getattr(node, 'name', '<lambda>'), qual)
+            if not isinstance(node, ast.Lambda):
+                fr.fnode = node
             self.bind_args(node.args, fr, args, kwargs, defaults, kw_defaults)
             if isinstance(node, ast.Lambda):
                 return self.eval(node.body, fr)
@@ -541,7 +547,52 @@ class Interp(object):
             raise Unsupported("decorated nested function")
         self.store_name(st.name, f, fr)
 
+    def loop_spec(self, st, fr):
+        if not self.loops:
+            return None, None
+        root = getattr(fr, 'fnode', None)
+        if root is None:
+            return None, None
+        key = id(root)
+        om = self._ordinals.get(key)
+        if om is None:
+            loops = [n for n in ast.walk(root) if isinstance(n, (ast.For, ast.While))]
+            loops.sort(key=lambda n: (n.lineno, n.col_offset))
+            om = dict((id(n), k) for k, n in enumerate(loops))
+            self._ordinals[key] = om
+        k = om.get(id(st))
+        spec = self.loops.get((fr.qual, k))
+        return spec, "%s#loop%d" % (fr.qual.split('.')[-1], k if k is not None else -1)
+
+    def _check_inv(self, spec, fr, k, label):
+        c = spec.inv(self, fr, k)
+        if isinstance(c, Sym):
+            c = sym.truth(c)
+        self.path.prove(label, c)
+
+    def _assume_inv(self, spec, fr, k):
+        c = spec.inv(self, fr, k)
+        if isinstance(c, Sym):
+            c = c.e
+        self.path.assume(c)
+
     def x_While(self, st, fr):
+        spec, label = self.loop_spec(st, fr)
+        if spec is not None:
+            self._check_inv(spec, fr, None, label + ':invariant-holds-on-entry')
+            spec.havoc(self, fr, None)
+            self._assume_inv(spec, fr, None)
+            if self.truth(self.eval(st.test, fr)):
+                try:
+                    self.exec_block(st.body, fr)
+                except _Break:
+                    return
+                except _Continue:
+                    pass
+                self._check_inv(spec, fr, None, label + ':invariant-preserved')
+                raise PathEnd()
+            self.exec_block(st.orelse, fr)
+            return
         n = 0
         while self.truth(self.eval(st.test, fr)):
             n += 1
@@ -557,6 +608,27 @@ class Interp(object):
             self.exec_block(st.orelse, fr)
 
     def x_For(self, st, fr):
+        spec, label = self.loop_spec(st, fr)
+        if spec is not None:
+            seq = self.eval(st.iter, fr)
+            n = _h_len(self, seq)
+            self._check_inv(spec, fr, 0, label + ':invariant-holds-on-entry')
+            k = self.path.fresh_int('k')
+            self.path.assume(z3.And(k.e >= 0, k.e <= sym._as_int_expr(n)))
+            spec.havoc(self, fr, k)
+            self._assume_inv(spec, fr, k)
+            if self.path.branch(k.e < sym._as_int_expr(n)):
+                self.assign(st.target, self.getitem(seq, k), fr)
+                try:
+                    self.exec_block(st.body, fr)
+                except _Break:
+                    return
+                except _Continue:
+                    pass
+                self._check_inv(spec, fr, k + 1, label + ':invariant-preserved')
+                raise PathEnd()
+            self.exec_block(st.orelse, fr)
+            return
         it = self.iterate(self.eval(st.iter, fr))
         n = 0
         broke = False
@@ -576,6 +648,8 @@ class Interp(object):
             self.exec_block(st.orelse, fr)
 
     def iterate(self, v):
+        if isinstance(v, SymList):
+            raise Unsupported("iteration over a symbolic list without a loop contract")
         if isinstance(v, Sym):
             raise Unsupported("iteration over symbolic scalar")
         if isinstance(v, SymRange):
@@ -591,6 +665,8 @@ class Interp(object):
 
     # ------------------------------------------------------------------ expressions
     def truth(self, v):
+        if isinstance(v, SymList):
+            return self.path.branch(v.n > 0)
         t = sym.truth(v) if isinstance(v, Sym) else v
         if isinstance(t, Sym):
             return self.path.branch(t.e)
@@ -1473,6 +1549,8 @@ def _h_str(it, x=''):
 
 
 def _h_len(it, x):
+    if isinstance(x, SymList):
+        return x.length()
     if isinstance(x, AbstractSeq):
         return x.length
     if isinstance(x, Sym):
